@@ -1605,4 +1605,71 @@ Section Sound.
         rewrite norm_elem_msg by assumption. pose proof (norm_is_msgv tm b ltac:(assumption)) as Hn.
         destruct b; try discriminate. apply Hrec in Hv. destruct (norm sch tm (VMsg slots unk)); try discriminate. exact Hv.
   Qed.
+
+  Lemma slots_norm (rec : rec_t) r p :
+    (forall pp ic tm e, rec pp ic tm e = true -> rec pp ic tm (norm sch tm e) = true) ->
+    forall fs fas ss, slots_deep R rec r p fs fas ss = true ->
+      slots_deep R rec r p fs fas (RoundTrip.zipf (norm_slot sch (norm sch)) fs ss) = true.
+  Proof.
+    intros Hrec. induction fs as [|f fs IH]; intros [|fa fas] [|s ss]; cbn [slots_deep RoundTrip.zipf]; auto.
+    intros H. apply andb_true_iff in H. destruct H as [H1 H2]. apply andb_true_iff. split; [apply slot_norm; assumption|apply IH; assumption].
+  Qed.
+
+  Lemma norm_slot_some f s oi : f_shape f = Member oi ->
+    (match norm_slot sch (norm sch) f s with VSome _ => true | _ => false end) = (match s with VSome _ => true | _ => false end).
+  Proof. intros Es. unfold norm_slot. rewrite Es. destruct s; reflexivity. Qed.
+
+  Lemma count_norm fs : forall ss oi, oneof_count fs (RoundTrip.zipf (norm_slot sch (norm sch)) fs ss) oi = oneof_count fs ss oi.
+  Proof.
+    induction fs as [|f fs IH]; intros [|s ss] oi; cbn [RoundTrip.zipf oneof_count]; auto. rewrite IH. f_equal.
+    destruct (f_shape f) as [| |j|] eqn:Es; try reflexivity. pose proof (norm_slot_some f s j Es) as H.
+    destruct (norm_slot sch (norm sch) f s), s; try discriminate; reflexivity.
+  Qed.
+
+  Lemma state_norm fs : forall ss i oi, oneof_state fs (RoundTrip.zipf (norm_slot sch (norm sch)) fs ss) i oi = oneof_state fs ss i oi.
+  Proof.
+    induction fs as [|f fs IH]; intros [|s ss] i oi; cbn [RoundTrip.zipf oneof_state]; auto. rewrite IH.
+    destruct (f_shape f) as [| |j|] eqn:Es; try reflexivity. pose proof (norm_slot_some f s j Es) as H.
+    destruct (norm_slot sch (norm sch) f s), s; try discriminate; reflexivity.
+  Qed.
+
+  Lemma range_norm : forall r p ic mid v, deep sch ann R r p ic mid v = true -> deep sch ann R r p ic mid (norm sch mid v) = true.
+  Proof.
+    induction r as [|r IH]; intros p ic mid v; cbn [deep]; [discriminate|].
+    destruct (get_msg sch mid) as [md|] eqn:Hg; [|discriminate]. destruct (nth_error ann mid) as [ma|] eqn:Ha; [|discriminate].
+    destruct v; try discriminate. rewrite RoundTrip.norm_unfold, Hg.
+    destruct (ann_ok_nth _ _ _ _ _ Hann Hg Ha) as [Hlay _].
+    intros H. apply andb_true_iff in H. destruct H as [Hm Hs]. cbn [p_msg range_preds] in *. unfold rg_msg in *.
+    destruct (a_wkt ma) eqn:Ew; cbn [wkt_layout] in Hlay.
+    - apply andb_true_iff. split.
+      + splitb. apply andb_true_iff. split; [assumption|]. unfold oneofs_ok in *. eapply forallb_impl; [|eassumption].
+        intros oi _. rewrite count_norm, state_norm. auto.
+      + apply slots_norm; [intros; apply IH; assumption|exact Hs].
+    - apply fields_eqb_eq in Hlay. rewrite Hlay. splitb. destruct slots as [|[] [|[] [|]]]; try discriminate.
+      cbn [RoundTrip.zipf norm_slot fld f_shape f_ty]. apply andb_true_iff. split; [apply andb_true_iff; split; assumption|reflexivity].
+    - apply fields_eqb_eq in Hlay. rewrite Hlay. splitb. destruct slots as [|[] [|[] [|]]]; try discriminate.
+      cbn [RoundTrip.zipf norm_slot fld f_shape f_ty]. apply andb_true_iff. split; [apply andb_true_iff; split; assumption|reflexivity].
+    - apply fields_eqb_eq in Hlay. rewrite Hlay. splitb. destruct slots as [|[] [|vb [|]]]; try discriminate.
+      cbn [RoundTrip.zipf norm_slot fld f_shape f_ty].
+      set (vb' := if present KBytes vb then vb else VNil).
+      assert (Hab : as_bytes vb' = as_bytes vb).
+      { unfold vb'. destruct (present KBytes vb) eqn:Ep; [reflexivity|]. unfold present, blen in Ep. apply negb_false_iff, N.eqb_eq in Ep.
+        destruct (as_bytes vb); [reflexivity|cbn in Ep; lia]. }
+      assert (Hform : match vb' with VBytes _ | VNil => true | _ => false end = true).
+      { unfold vb'. destruct (present KBytes vb); [|reflexivity]. splitb. assumption. }
+      assert (Hbe : bytes_empty vb = true -> bytes_empty vb' = true).
+      { unfold vb'. destruct (present KBytes vb); auto. }
+      apply andb_true_iff. split.
+      + splitb. apply andb_true_iff. split; [assumption|]. apply andb_true_iff. split; [exact Hform|].
+        destruct (has_urls o).
+        * destruct (resolve ann l); [|discriminate]. splitb. apply andb_true_iff. split; [assumption|].
+          rewrite Hab. destruct (2 <=? r)%nat; auto.
+        * splitb. apply andb_true_iff. split; auto.
+      + unfold any_deep in *. rewrite Hab. exact Hs.
+    - apply fields_eqb_eq in Hlay. rewrite Hlay. splitb. destruct slots as [|s [|]]; try discriminate.
+      cbn [RoundTrip.zipf norm_slot fld f_shape f_ty]. apply andb_true_iff. split; [|reflexivity]. apply andb_true_iff. split; [assumption|].
+      cbn [v_fieldmask_stored repaired] in *. destruct s; cbn [rep_len] in *; try discriminate.
+      destruct l as [|e l]; [discriminate|]. cbn [rep_len].
+      rewrite (map_id_ext (norm_elem sch (norm sch) (TScalar KString))); [assumption|]. intros x _. reflexivity.
+  Qed.
 End Sound.
